@@ -135,6 +135,27 @@ pub fn gen(seed: u64, _idx: u64, tier: Tier) -> Scenario {
             streams[c].extend_from_slice(&bytes);
             bounds[c].push(streams[c].len());
             let _ = i;
+            if style == 4 && r.chance(1, 3) {
+                // pad with one ECHO so that this request ends exactly on a multiple of the server's 8192-byte read size
+                let len = streams[c].len();
+                let target = ((len + 60) / 8192 + 1) * 8192;
+                let fill = target - len;
+                // "*2\r\n$4\r\nECHO\r\n$<n>\r\n<payload>\r\n": overhead = 14 + 1 + digits(n) + 2 + 2
+                for digits in 1..6usize {
+                    let overhead = 14 + 1 + digits + 2 + 2;
+                    if fill > overhead { let n = fill - overhead; if n.to_string().len() == digits && n >= 12 {
+                        marker += 1;
+                        let mut m = format!("pad-{}-{}-", c, marker).into_bytes(); m.resize(n, b'p');
+                        let bytes = cmd(&[b"ECHO", &m]);
+                        if streams[c].len() + bytes.len() == target {
+                            sc.steps.push(Step::Ctl { name: "req".into(), n: (c as i64) * 100 + K_ECHO, a: vec![B(bytes.clone()), B(m)] });
+                            streams[c].extend_from_slice(&bytes);
+                            bounds[c].push(streams[c].len());
+                        }
+                        break;
+                    } }
+                }
+            }
         }
         if r.chance(1, 5) {
             let v = violation(&mut r);
@@ -155,13 +176,15 @@ pub fn gen(seed: u64, _idx: u64, tier: Tier) -> Scenario {
             1 => r.range(1, 600.min(rem as i64)) as usize,
             2 => 1,
             3 => { let nb = bounds[c].iter().copied().filter(|b| *b > pos[c]).nth(r.below(4) as usize).unwrap_or(streams[c].len()); nb - pos[c] }
-            4 => { let to = ((pos[c] / 8192) + 1) * 8192; let d = (to as i64 + r.range(-2, 2)).max(pos[c] as i64 + 1) as usize; d.min(streams[c].len()) - pos[c] }
+            4 => { let to = ((pos[c] / 8192) + 1) * 8192; let d = (to as i64 + *r.pick(&[0i64, 0, 0, -1, 1, -2, 2])).max(pos[c] as i64 + 1) as usize; d.min(streams[c].len()) - pos[c] }
             _ => r.range(1, 7.min(rem as i64)) as usize,
         }.max(1).min(rem);
         // one-byte style on a long stream is capped: after 400 bytes deliver the rest in chunks
         let n = if style == 2 && pos[c] > 400 { rem.min(997) } else { n };
         sc.steps.push(Step::Ctl { name: "flow".into(), n: (c as i64) * 100_000_000 + n as i64, a: vec![] });
         pos[c] += n;
+        // the client stops sending and waits: everything delivered completely so far must be answered
+        if r.chance(1, 5) || pos[c] % 8192 == 0 { sc.steps.push(Step::Ctl { name: "sync".into(), n: c as i64, a: vec![] }); }
     }
     sc.steps.push(Step::Ctl { name: "drain".into(), n: 0, a: vec![] });
     sc
@@ -200,6 +223,24 @@ pub fn exec(sc: &Scenario) -> Outcome {
                     let e = (p + k).min(s.len());
                     if e > p { let seg = s[p..e].to_vec(); h.send_bytes(ci, &seg, &[]); pos.insert(c, e); h.count("segments", 1); }
                     h.turn();
+                }
+            }
+            Step::Ctl { name, n, .. } if name == "sync" => {
+                let c = *n as usize;
+                if let (Some(ci), Some(v)) = (h.cl(c), reqs.get(&c)) {
+                    let p = *pos.get(&c).unwrap_or(&0);
+                    // number of requests completely delivered so far
+                    let mut off = 0usize; let mut complete = 0usize; let mut viol_seen = false;
+                    for q in v { off += q.bytes.len(); if off <= p { if q.kind == K_PROTO { viol_seen = true; } complete += 1; } else { break; } }
+                    // the server reads at most 8192 bytes and answers with bounded sends per turn
+                    let budget = if slow > 0 { 4000 + p / 16 } else { 8 + p / 2048 };
+                    let mut turns = 0;
+                    while (h.cs[ci].n_replies as usize) < complete && turns < budget && h.dead.is_none() && h.cs[ci].proto_err.is_none() { h.turn(); turns += 1; }
+                    h.count("sync_points", 1);
+                    if (h.cs[ci].n_replies as usize) < complete && !viol_seen && h.cs[ci].proto_err.is_none() && !h.sim.clients[ci].eof {
+                        let q = &v[h.cs[ci].n_replies as usize];
+                        h.violate(format!("C05/reply-withheld/{}", req_name(&q.bytes)), format!("connection {}: {} requests ({} bytes) are completely delivered and the client waits, but only {} replies arrived within {} loop turns; first unanswered: `{}`", c, complete, p, h.cs[ci].n_replies, budget, resp::escape(&q.bytes[..q.bytes.len().min(60)])));
+                    }
                 }
             }
             Step::Ctl { name, .. } if name == "drain" => {
